@@ -1073,7 +1073,12 @@ public:
 
   bool is_bottom() const override { return m_product.is_bottom(); }
 
-  bool is_top() const override { return m_product.is_top(); }
+  bool is_top() const override {
+    // a value whose product is top still restricts the states it
+    // describes if some boolean implies a constraint or another boolean
+    return m_product.is_top() && m_bool_to_lincsts.is_top() &&
+           m_bool_to_refcsts.is_top() && m_bool_to_bools.is_top();
+  }
 
   bool_domain_t &first() { return m_product.first(); }
 
